@@ -9,7 +9,7 @@ From Aelys Require Import Base.Tactics Model.Lang Model.Eval Extracted.OptConsts
   Model.PureEval Proofs.EvalProofs Proofs.FoldProofs Proofs.PureProofs Proofs.EvalMono Proofs.FoldEvalProofs
   Proofs.ValueMap Proofs.FoldSim Proofs.FoldSimExpr Model.Opt.Dce Proofs.DceEval Proofs.DceSim Proofs.DceSim2
   Model.Opt.Unused Proofs.UnusedProofs Model.Opt.GlobalProp Proofs.GlobalPropProofs
-  Model.Opt.LocalProp Proofs.LocalPropProofs.
+  Model.Opt.LocalProp Proofs.LocalPropProofs Proofs.LocalPropInv.
 Local Open Scope Z_scope.
 
 (* whenever the folder replaces `a op b` by a literal, that literal is exactly the value the
@@ -414,6 +414,32 @@ Theorem C01_lprop_rebindable_global_not_recorded : forall open bs d (top : scope
   length (snd (lp_expr open bs d [top] e)) = 1%nat ->
   bound_once bs x = false -> ss_get x ss' = None.
 Proof. exact rebindable_global_not_recorded. Qed.
+
+(* Two invariants of the whole walk, for every program, every expression and statement at every
+   depth (mutual structural induction over expressions, statements and their nested lists,
+   Proofs/LangInd.v): the scope stack keeps its depth (what a construct opens it closes - so
+   "depth 1" in the `let` rule means exactly "a top-level statement"), and it records literals
+   only - hence whatever the pass substitutes for a variable is a literal. *)
+Theorem C01_lprop_walk_keeps_depth : forall o b d ss s,
+  ss <> [] -> length (snd (lp_stmt o b d ss s)) = length ss.
+Proof. exact lp_stmt_keeps_depth. Qed.
+Theorem C01_lprop_walk_records_literals_only : forall o b d ss s,
+  ss <> [] -> lits ss -> lits (snd (lp_stmt o b d ss s)).
+Proof. exact lp_stmt_keeps_literals. Qed.
+Theorem C01_lprop_substituted_value_is_literal : forall open d ss x k,
+  lits ss -> known open d ss x = Some k -> is_simple_constant k = true.
+Proof. exact substituted_value_is_literal. Qed.
+(* every top-level statement of every program is rewritten from a state of depth 1 that records
+   literals only *)
+Theorem C01_lprop_top_level_states : forall open p k s,
+  nth_error p k = Some s ->
+  exists ssk, length ssk = 1%nat /\ lits ssk /\
+              nth_error (lprop_program open p) k = Some (fst (lp_stmt open (binders_block p) false ssk s)).
+Proof. exact lprop_program_top_level_states. Qed.
+(* the `let` rule without side condition *)
+Theorem C01_lprop_top_level_rebindable_never_recorded : forall open bs (top : scope) x m e,
+  bound_once bs x = false -> ss_get x (snd (lp_stmt open bs false [top] (SLet x m e))) = None.
+Proof. exact top_level_rebindable_never_recorded. Qed.
 
 (* PARTIAL: the whole-program preservation statement for this pass is not proved (per-program
    validation covers it).  Non-vacuity (inside a function body): propagation into later uses and
